@@ -570,3 +570,35 @@ func ObjGet(obj V, key string) (V, bool) {
 	}
 	return nil, false
 }
+
+// Collection names travel through the traces as ASCII: TLC's JSON reader does not preserve
+// non-ASCII characters (distinct names would collide), and the specification only needs equality.
+// escName is injective: every byte outside [A-Za-z0-9 _.:-] becomes %XX.
+func escName(n string) string {
+	out := make([]byte, 0, len(n))
+	for i := 0; i < len(n); i++ {
+		c := n[i]
+		switch {
+		case c >= 'a' && c <= 'z', c >= 'A' && c <= 'Z', c >= '0' && c <= '9', c == ' ', c == '_', c == '.', c == ':', c == '-':
+			out = append(out, c)
+		default:
+			out = append(out, []byte(fmt.Sprintf("%%%02X", c))...)
+		}
+	}
+	return string(out)
+}
+
+func unescName(n string) string {
+	out := make([]byte, 0, len(n))
+	for i := 0; i < len(n); i++ {
+		if n[i] == '%' && i+2 < len(n) {
+			var b byte
+			fmt.Sscanf(n[i+1:i+3], "%02X", &b)
+			out = append(out, b)
+			i += 2
+		} else {
+			out = append(out, n[i])
+		}
+	}
+	return string(out)
+}
